@@ -17,6 +17,8 @@ CHECKS = {
              ref="4.18", tech="symbolic execution of the whole pipeline with symbolic identifier spellings; relational claim by path partition (symx + z3)"),
  "C19": dict(text="Two pipeline runs per path class on shared symbolic slots (base file / file with the 42 header, an inserted comment line, an appended conforming function); the second run's diagnostics must be the first's shifted by the inserted lines, nothing added or removed.",
              ref="4.19", tech="two-run symbolic execution of the whole pipeline on shared symbolic slots (symx + z3)"),
+ "C04": dict(text="The real main() is executed symbolically with the per-file analysis replaced by a nondeterministic stub (symbolic file class and diagnostic levels): for every sequence of 0..N files of the four classes, both formats, explicit / directory / repeated arguments: one verdict per file, OK iff no Error-level diagnostic, exit 0 iff all OK, no internal exception.",
+             ref="4.4", tech="symbolic execution of norminette.__main__.main with a nondeterministic analysis stub (symx + z3); replay through the real CLI"),
  "C05": dict(text="Tokenizer totality by one-step induction: for every window of <=N symbolic ASCII characters and every start position one get_next_token() call returns and raises nothing (solver-decided per path class).",
              ref="4.5", tech="symbolic execution of Lexer.get_next_token (symx + z3), one-step induction over the token stream"),
  "C09": dict(text="Token/end/diagnostic positions equal an independent position scanner for every window of <=N symbolic characters and every symbolic start (line, col); induction over tokens extends it to whole files.",
